@@ -1,6 +1,6 @@
 //! C03 — unarmouring is the exact 6-bit unpacking with fill bits cleared.
 
-use crate::adapter::{Config, STD};
+use crate::adapter::{configs, Config, STD};
 use crate::engine::{Ctx, Input, Rec, Tier, Verdict};
 use crate::outcome::PRes;
 use crate::refmodel::armor::{self, ALPHABET};
@@ -45,16 +45,23 @@ pub fn check(_sub: &str, cfg: &'static dyn Config, input: &Input, rec: &mut Rec)
 
 /// bulk path for the big enumerations: no per-case bookkeeping, distinct by construction
 fn bulk(ctx: &mut Ctx, sub: &str, cases: impl Iterator<Item = (Vec<u8>, usize)>) {
+    bulk_cfg(ctx, sub, &STD, cases)
+}
+
+fn bulk_cfg(ctx: &mut Ctx, sub: &str, cfg: &'static dyn Config, cases: impl Iterator<Item = (Vec<u8>, usize)>) {
     let mut n = 0u64;
     let mut nt = 0u64;
     for (data, fill) in cases {
+        if cfg.name() == "none" && data.len() > 512 {
+            continue;
+        }
         n += 1;
         if !data.is_empty() {
             nt += 1;
         }
-        if judge(&STD, &data, fill).is_err() {
+        if judge(cfg, &data, fill).is_err() {
             // report through the ordinary path so that the replay file and texts are produced
-            ctx.sweep_case(sub, &STD, &Input::Unarmor { data, fill }, check);
+            ctx.sweep_case(sub, cfg, &Input::Unarmor { data, fill }, check);
             break;
         }
     }
@@ -63,8 +70,10 @@ fn bulk(ctx: &mut Ctx, sub: &str, cases: impl Iterator<Item = (Vec<u8>, usize)>)
     st.evals += n;
     ctx.cases += n;
     ctx.evals += n;
-    *ctx.per_config.entry("std".into()).or_default() += n;
-    ctx.nontrivial_by_construction += nt;
+    *ctx.per_config.entry(cfg.name().into()).or_default() += n;
+    if cfg.name() == "std" {
+        ctx.nontrivial_by_construction += nt;
+    }
 }
 
 pub fn run(ctx: &mut Ctx) {
@@ -109,6 +118,56 @@ pub fn run(ctx: &mut Ctx) {
     }
     bulk(ctx, "every-byte-at-every-position", cases.into_iter());
     ctx.mark_exhaustive("every-byte-at-every-position", "lengths 1..=16 x every position x all 256 byte values x fill 0..=5, random alphabet characters elsewhere");
+
+    // repetitive strings: constant strings and strings made of a repeated block of 1..8 characters, at
+    // every length up to 48 and every fill - an implementation that recognises "the last group" (or any
+    // position) by content instead of by index is wrong exactly here
+    let mut cases: Vec<(Vec<u8>, usize)> = Vec::new();
+    for c in 0..64usize {
+        for len in 1..=24usize {
+            for fill in 0..6 {
+                cases.push((vec![ALPHABET[c]; len], fill));
+            }
+        }
+    }
+    let blocks = ctx.tier.pick(6, 60);
+    for period in 1..=8usize {
+        for _ in 0..blocks {
+            let block: Vec<u8> = mix.bytes(period).iter().map(|b| ALPHABET[(*b & 63) as usize]).collect();
+            for len in 1..=48usize {
+                for fill in 0..6 {
+                    cases.push(((0..len).map(|i| block[i % period]).collect(), fill));
+                }
+            }
+        }
+    }
+    bulk(ctx, "repetitive-strings", cases.into_iter());
+    ctx.mark_exhaustive("repetitive-strings", "constant strings of each of the 64 characters (lengths 1..=24) and strings of a repeated random block of 1..=8 characters (lengths 1..=48) x fill 0..=5");
+
+    // the other two builds: every byte at every position of short strings, and the lengths around the
+    // 384-byte output capacity of the no-allocator build (512 characters still fit)
+    for cfg in configs().into_iter().skip(1) {
+        let mut cases: Vec<(Vec<u8>, usize)> = Vec::new();
+        for len in 1..=9usize {
+            for pos in 0..len {
+                let base: Vec<u8> = mix.bytes(len).iter().map(|b| ALPHABET[(*b & 63) as usize]).collect();
+                for val in 0..=255u8 {
+                    for fill in 0..6 {
+                        let mut d = base.clone();
+                        d[pos] = val;
+                        cases.push((d, fill));
+                    }
+                }
+            }
+        }
+        for len in [0usize, 100, 383, 384, 385, 508, 509, 510, 511, 512] {
+            for fill in 0..6 {
+                cases.push((mix.bytes(len).iter().map(|b| ALPHABET[(*b & 63) as usize]).collect(), fill));
+            }
+        }
+        bulk_cfg(ctx, "other-builds", cfg, cases.into_iter());
+    }
+    ctx.mark_exhaustive("other-builds", "alloc and no-allocator builds: lengths 1..=9 x every position x all 256 byte values x fill 0..=5, and random alphabet strings of 0, 100, 383..385 and 508..512 characters");
 
     // generated: long alphabet strings, strings with one illegal byte, arbitrary bytes
     let n = ctx.tier.pick(100_000, 600_000);
